@@ -1,6 +1,8 @@
 package main
 
 import (
+	"go/token"
+	"go/types"
 	"strings"
 
 	"golang.org/x/tools/go/ssa"
@@ -409,6 +411,8 @@ func init() {
 		o.MinSites(2)
 	})
 
+	reg("C10", "C10.15", "T3,T12", "a logged entry is never changed in place: outside the generated code, fields of log entries are written only on an entry the same function has just built", logEntryImmutableRule)
+
 	reg("C10", "C10.4", "T1,T5", "Query returns exactly the entry at stateKey(group, receiver) or ErrNotFound, under the read lock; GC deletes iff expiry is not after now", func(o *Ob) {
 		// shared with C04.5
 		for i := range registry {
@@ -455,4 +459,44 @@ func entryReadOnlyRule(o *Ob) {
 		o.Passed++
 	}
 	o.MinSites(2)
+}
+
+// logEntryImmutableRule: Query hands out the stored entry itself (C10.4), so whoever writes a field of an
+// entry it did not build changes the log without Log — unsynchronised, without a new timestamp, unreplicated.
+// Every write (field store, element store, map update, delete) to a field of nflogpb.Entry, MeshEntry or
+// Receiver outside the generated package must address an object allocated in the writing function.
+func logEntryImmutableRule(o *Ob) {
+	e := o.E
+	n := 0
+	for _, T := range []string{"Entry", "MeshEntry", "Receiver"} {
+		nt := e.NamedType("am/nflog/nflogpb", T)
+		if !o.Check(nt != nil, "type|"+T, "the log entry type nflogpb."+T+" no longer exists", nil) {
+			continue
+		}
+		st, _ := nt.Underlying().(*types.Struct)
+		for i := 0; st != nil && i < st.NumFields(); i++ {
+			f := st.Field(i).Name()
+			for _, w := range e.Writers("am/nflog/nflogpb."+T, f) {
+				if fnPkgPath(w.Fn) == long("am/nflog/nflogpb") {
+					continue
+				}
+				n++
+				o.Site(w.Instr, w.Kind+" of "+T+"."+f+" in "+fnName(w.Fn))
+				base := w.Base
+				for {
+					if u, ok := base.(*ssa.UnOp); ok && u.Op == token.MUL {
+						if ld := localStored(u); ld != ssa.Value(u) {
+							base = ld
+							continue
+						}
+					}
+					break
+				}
+				_, fresh := base.(*ssa.Alloc)
+				o.Check(fresh, "entry-write|"+fnName(w.Fn)+"|"+T+"."+f, fnName(w.Fn)+" writes "+T+"."+f+" of an entry it did not build ("+clip(e.X(w.Fn, w.Base))+"): entries handed out by Query are the stored ones", w.Instr)
+			}
+		}
+	}
+	o.Check(n >= 5, "few", "implausibly few writes of log entry fields found (the log builds its entries field by field): "+itoa(n), nil)
+	o.MinSites(5)
 }
